@@ -28,6 +28,7 @@ var c04Tuples = [][4]string{
 	{"1", "1", "2", "2"},
 	{"null", "3", "2", "5"},
 	{"6", "-3", "2", "-1"},
+	{"2.5", "1.5", "0.5", "3.5"}, // fractions: a cast applied to an operand or to a whole sub-expression gives different values
 }
 
 func isWord(s string) bool {
@@ -96,7 +97,7 @@ func c04Job(k c04Case, style string, which []string) string {
 func C04(c *Ctx) *kf.Report {
 	rep := &kf.Report{Property: "C04", Level: "model_checking", Coverage: map[string]any{}}
 	rep.Assumptions = []string{
-		"operator table of Expr.tla: 24 binary operators on 13 levels, prefix ! - ~ ; ternary, assignment and casts are not in the tree model",
+		"operator table of Expr.tla: 24 binary operators on 13 levels, prefix ! - ~ and the casts (int) (string); ternary and assignment are not in the tree model",
 		"both printings are evaluated by the real interpreter; the values of the two fully parenthesised groupings (also evaluated by the interpreter) decide whether an operand tuple discriminates a pair",
 		"three renderings: variables, spaced literals, literals glued to the preceding operator (signed-number tokens)",
 	}
